@@ -57,6 +57,15 @@ CalcOf(c) ==
                       !.mon = [remove |-> c.mon[1], round |-> c.mon[2]],
                       !.tz = c.tz]
 
+Sep(x) == IF x = "" THEN <<>> ELSE <<x>>
+\* the format setting that applies to a value of the event's kind: numbers and percentages have their own settings,
+\* money takes the currency's digit count, a unit quantity its item's settings
+FormatOf(e) ==
+  LET base == CASE e.kind = "num"   -> calc.num
+                [] e.kind = "pct"   -> calc.pct
+                [] e.kind = "money" -> [d |-> e.digits, remove |-> calc.mon.remove, round |-> calc.mon.round]
+                [] e.kind = "unit"  -> [d |-> e.digits, remove |-> TRUE, round |-> TRUE]
+  IN  [d |-> base.d, remove |-> base.remove, round |-> base.round, dec |-> Sep(calc.dec), tho |-> Sep(calc.tho)]
 Judge(ok, exp) == bad' = IF ok THEN bad ELSE IF Report(l, exp) THEN bad \cup {l} ELSE bad
 
 TInit == /\ calc = DefaultCalc /\ sess = <<>> /\ run = NoRun /\ today = 0 /\ last = [call |-> "none"]
@@ -93,6 +102,10 @@ TNext ==
          [] e.ev = "add_type_item" ->
               /\ AddItem(e.fam, [idx |-> e.idx, up |-> e.up, down |-> e.down])
               /\ Judge(e.ret = B(AddItemOk(calc, e.fam, e.idx)), <<[k |-> "ret", v |-> AddItemOk(calc, e.fam, e.idx)]>>)
+         [] e.ev = "format" ->
+              \* the printed form of a value of kind e.kind under the calculator's current format settings (C07)
+              /\ LET allowed == Printed(e.kind, e.v, FormatOf(e), e.deco) IN Judge(e.out \in allowed, <<[k |-> "format", allowed |-> allowed]>>)
+              /\ last' = [call |-> "format"] /\ UNCHANGED <<calc, sess, run, today>>
          [] e.ev = "session_new" -> NewSession(e.s) /\ bad' = bad
          [] e.ev = "set_language" -> SetLanguage(e.s, e.lang) /\ bad' = bad
          [] e.ev = "set_text" -> SetText(e.s, e.lines) /\ bad' = bad
